@@ -273,7 +273,8 @@ class MPSLinear(nn.Linear, MPSModule):
         v = dict(vars(self))
         # TODO: detach to be double-checked
         v['in_features'] = self.input_features_calculator.features.detach()
-        v['out_features'] = self.out_features_eff
+        # the share of each precision (w_theta_alpha) already accounts for pruned channels
+        v['out_features'] = self.out_features
         return v
 
     def get_cost(self, cost_fn: CostFn, out_shape: Dict[str, Any]) -> torch.Tensor:
